@@ -335,6 +335,12 @@ def check(ctx):
         n = rk.check_operand_interface(ctx, "C03.operand", scope=sampler_scope)
         ctx.floor("C03.operand", n, 3, "operand attribute reads in sampler code")
 
+    # a position specified `in` a region is drawn from the PRUNED region: every part of the feasible set must survive pruning
+    # (C08's bound-polarity and subset rules are necessary conditions of "every part of positive measure can be produced")
+    from . import c08
+
+    ctx.run(c08.check_polarity, R="C03.pruned.polarity")
+    ctx.run(c08.check_subset, R="C03.pruned.subset")
     ctx.run(weights)
     ctx.run(check_membership)
     ctx.run(check_height)
